@@ -300,6 +300,10 @@ def translate(sc, res, trace):
             ended.add(who)
             A.append("A_%d" % ids[who])
             B.append("A_%d" % ids[who])
+        elif kind == "topcancel":
+            tick(t)
+            A.append("XC")
+            B.append("XC")
         elif kind in ("rret", "rraise", "rcancel"):
             tick(t)
             ended.add(who)
